@@ -32,7 +32,28 @@ def obligations(tier):
             if name != "VWMA":
                 for s in ((0, 1, 2, p, p + 1) if tier == "thorough" else (1, p)):
                     obs.append(Ob(f"{name}(period={p})/late-input s={s}/n={n + s}", dict(spec=["ind", name, dict(period=p)], n=n + s, late=s), DEF, weight=n + s, budget_s=600))
+    # 'recalculate() ... ideal for changing an indicator parameters midway' (Hexital.recalculate): after the period is
+    # changed and the readings are recalculated, they obey the definition for the NEW period
+    for name in ("SMA", "EMA", "RMA", "WMA", "VWMA"):
+        obs.append(Ob(f"{name}/period 3->2 + recalculate/n=6", dict(name=name, n=6), DEF, fn="run_reparam", weight=6, budget_s=300))
     return obs
+
+
+def run_reparam(ctx, P):
+    _, _, Candle, _, Hexital = lib()
+    name, n = P["name"], P["n"]
+    cs = mk_candles(ctx, n)
+    if name == "VWMA":
+        for c in cs:
+            ctx.assume(c.volume > 0)
+    ind = build(name, dict(period=3), round_value=RV)
+    hx = Hexital("hx", cs, [ind])
+    hx.calculate()
+    ind.period = 2
+    hx.recalculate()
+    got = ind.as_list()
+    ctx.observe("readings", got)
+    compare_series(ctx, f"{name}(period 3->2)", got, expected(ctx, name, dict(period=2), cs))
 
 
 def run(ctx, P):
